@@ -574,12 +574,15 @@ impl Scenario for C20Cli {
         let set = gen::generate(&mut w, &cfg);
         let n = set.modules.len();
         let malformed = if !order_sensitive && w.chance(1, 6) { Some(w.below(n)) } else { None };
-        let dirs = ["", "sub/", "sub/deeper/", "other.d/", "a-b/", ".hidden/", "sub/.git-like/"];
+        let dirs = ["", "sub/", "sub/deeper/", "other.d/", "a-b/", ".hidden/", "sub/.git-like/", "v1,v2/", "old.asn/"];
         let mut tree = vec![];
         for i in 0..n {
             let ext = *w.pick(&["asn", "asn1", "asn", "ASN", "txt"]);
             // a module under a non-matching extension can only be named with -m
-            tree.push(TreeEntry { rel: format!("{}mod{i}.{ext}", w.pick(&dirs)), module: Some(i) });
+            // unusual but valid file names: a path is a path, whatever punctuation it holds (no blank:
+            // the event log separates its fields with blanks)
+            let odd = ["", "", "", "", ",v2", "=final", "#1", "+x", "-\u{f6}", "@2x", ";1", ":b"][(mix(seed, 0x0dd + i as u64) % 12) as usize];
+            tree.push(TreeEntry { rel: format!("{}mod{i}{odd}.{ext}", w.pick(&dirs)), module: Some(i) });
         }
         for k in 0..w.below(3) {
             tree.push(TreeEntry { rel: format!("{}junk{k}.{}", w.pick(&dirs), w.pick(&["txt", "md", "asn.bak", "asn1~"])), module: None });
@@ -742,6 +745,12 @@ impl Scenario for C20Cli {
         out.count(&format!("out.{:?}", p.out), 1);
         out.count(&format!("phase.{}", p.phase), 1);
         out.count(if p.use_dir { "args.directory_search" } else { "args.module_files" }, 1);
+        if p.use_dir && p.tree.iter().any(|t| t.rel.starts_with("old.asn/")) {
+            out.count("probe.searched_tree_holds_a_directory_named_like_a_module", 1);
+        }
+        if p.dash_m.iter().any(|t| p.tree[*t].rel.contains(|c: char| ",=#+@;:".contains(c) || !c.is_ascii())) {
+            out.count("probe.module_argument_with_punctuation_in_its_path", 1);
+        }
         for e in &fired {
             out.count(&format!("fault_fired.{}:{}", e.call, e.fault), 1);
         }
